@@ -81,6 +81,9 @@ M = [
     ("c19-bias-sign", IMU, "active_imu_accel = [imu_accel[i] - accel_sensor_bias[i] for i in range(3)]", "active_imu_accel = [imu_accel[i] + accel_sensor_bias[i] for i in range(3)]", ["C19"]),
     ("c19-conjugate-sign", IMU, "    orientation.a, -orientation.b, -orientation.c, -orientation.d\n", "    orientation.a, -orientation.b, -orientation.c, orientation.d\n", ["C19"]),
     ("c19-orientation-factor", IMU, "_next_orientation = (0.5 * active_orientation", "_next_orientation = (1.0 * active_orientation", ["C19"]),
+    ("c05-module-level-jacobian-cache", PY, "        H_t = self.sensor_jacobian(sensor_key, state)\n        assert H_t.shape == (sensor_size, self.state_size)",
+     "        _key = (sensor_key, sensor_size, self.state_size, tuple(float(v) for v in state.data.ravel()))\n        if _key not in _H_CACHE:\n            _H_CACHE[_key] = self.sensor_jacobian(sensor_key, state)\n        H_t = _H_CACHE[_key]\n        assert H_t.shape == (sensor_size, self.state_size)", ["C05"]),
+    ("c04-module-level-noise-cache", PY, "        self.process_noise = process_noise_matrix\n", "        self.process_noise = _M_CACHE.setdefault(tuple(str(c) for c in self.arglist_control), process_noise_matrix)\n", ["C04"]),
     # semantics-preserving variants: must stay silent
     ("ok-eigvalsh-on-symmetrised-copy", PY, "    covariance_eigenvalues = np.linalg.eigvalsh((covariance + covariance.T) / 2.0)", "    covariance_eigenvalues = np.linalg.eigvalsh(0.5 * (covariance + covariance.T))", [], True),
     ("ok-model-construction-error-for-assert", PY, "        assert len(process_noise) == self.control_size\n", "        if len(process_noise) != self.control_size:\n            raise ModelConstructionError(\"process noise size\")\n", [], True),
@@ -122,7 +125,11 @@ def main():
                 print(f"{name}: SKIP - anchor occurs {src.count(old)} times in {path}")
                 results[name] = {"status": "anchor-missing"}
                 continue
-            open(full, "w").write(src.replace(old, new))
+            mutated = src.replace(old, new)
+            for glob in ("_H_CACHE", "_M_CACHE"):
+                if glob in new:
+                    mutated = mutated.replace("DEFAULT_MODULES = (", glob + " = {}\nDEFAULT_MODULES = (", 1)
+            open(full, "w").write(mutated)
             diff = sh(f"git -C {WT} diff").stdout
             os.makedirs(os.path.join(VERIF, "mutations"), exist_ok=True)
             open(os.path.join(VERIF, "mutations", name + ".patch"), "w").write(diff)
